@@ -16,3 +16,9 @@ _m = sys.modules.get("entity_query_language")
 if _m is not None and not os.path.abspath(getattr(_m, "__file__", "")).startswith(os.path.abspath(_SRC)):
     for k in [k for k in sys.modules if k == "entity_query_language" or k.startswith("entity_query_language.")]:
         del sys.modules[k]
+
+# the library warns (through `logging`) about Cartesian products of unconstrained variables; the enumerated spaces contain
+# many of those on purpose, the warnings would only flood the logs of the checks
+import logging  # noqa: E402
+logging.getLogger("entity_query_language").setLevel(logging.ERROR)
+logging.getLogger().setLevel(logging.ERROR)
